@@ -178,6 +178,14 @@ pub trait Prop {
     fn self_check(_cx: &mut Ctx) -> Result<(), String> {
         Ok(())
     }
+    /// run the fixed cases in every build profile (default: release only)
+    fn fixed_on_all_profiles() -> bool {
+        false
+    }
+    /// signature for a case whose execution killed the worker process (SIGSEGV at a guard page, abort)
+    fn crash_sig(_case: &Self::Case) -> Option<String> {
+        None
+    }
 }
 
 #[derive(Clone, Debug, Serialize, Deserialize, Default)]
